@@ -81,22 +81,7 @@ opaque!(Channel);
 //@item broker/src/broker.rs struct Broker
 
 impl Broker {
-    // a connection lists a listener cookie exactly when the listener table holds that cookie for that connection
-    spec fn bl_inv(&self) -> bool {
-        &&& forall|k: ConnectionId, c: BusListenerCookie| #![trigger self.conns@[k].bus_listeners@.contains(c)]
-                self.conns@.contains_key(k) && self.conns@[k].bus_listeners@.contains(c)
-                    ==> self.bus_listeners@.contains_key(c) && self.bus_listeners@[c].conn_id.id() == k.id()
-        &&& forall|k: ConnectionId, c: BusListenerCookie| #![trigger self.conns@[k], self.bus_listeners@[c]]
-                self.conns@.contains_key(k) && self.bus_listeners@.contains_key(c)
-                    && self.bus_listeners@[c].conn_id.id() == k.id() ==> self.conns@[k].bus_listeners@.contains(c)
-    }
-
-    spec fn same_rest(&self, o: &Self) -> bool {
-        &&& self.recv == o.recv &&& self.handle == o.handle &&& self.obj_uuids == o.obj_uuids
-        &&& self.objs == o.objs &&& self.svc_uuids == o.svc_uuids &&& self.svcs == o.svcs
-        &&& self.function_calls == o.function_calls &&& self.channels == o.channels
-    }
-
+    //@include _shared/bl_inv.rs
     // the listener `c` exists and belongs to connection `id`
     spec fn owns(&self, id: &ConnectionId, c: BusListenerCookie) -> bool {
         self.bus_listeners@.contains_key(c) && self.bus_listeners@[c].conn_id.id() == id.id()
@@ -107,9 +92,18 @@ impl Broker {
             old(self).bl_inv(),
         ensures
             final(self).bl_inv(),
-            final(self).same_rest(old(self)),
+            final(self).bl_same_rest(old(self)),
             final(self).bus_listeners@ == old(self).bus_listeners@.remove(cookie),
             final(self).conns@.dom() == old(self).conns@.dom(),
+            // only the owner's own list of listeners is touched
+            forall|k: ConnectionId| #![trigger final(self).conns@[k]] old(self).conns@.contains_key(k) ==> {
+                if old(self).bus_listeners@.contains_key(cookie) && k == old(self).bus_listeners@[cookie].conn_id {
+                    final(self).conns@[k].bus_listeners@ == old(self).conns@[k].bus_listeners@.remove(cookie)
+                        && final(self).conns@[k].rest_eq(&old(self).conns@[k], 8)
+                } else {
+                    final(self).conns@[k] == old(self).conns@[k]
+                }
+            },
     //@end
 
     //@fn broker/src/broker.rs Broker::destroy_bus_listener
@@ -117,7 +111,7 @@ impl Broker {
             old(self).bl_inv(),
         ensures
             final(self).bl_inv(),
-            final(self).same_rest(old(self)),
+            final(self).bl_same_rest(old(self)),
             final(self).conns@.dom() == old(self).conns@.dom(),
             // only the owning connection can destroy a listener
             !(old(self).conns@.contains_key(*id) && old(self).owns(id, req.cookie))
@@ -134,7 +128,7 @@ impl Broker {
             old(self).bl_inv(),
         ensures
             final(self).bl_inv(),
-            final(self).same_rest(old(self)),
+            final(self).bl_same_rest(old(self)),
             final(self).conns@ == old(self).conns@,
             final(self).bus_listeners@.dom() == old(self).bus_listeners@.dom(),
             forall|c: BusListenerCookie| c != req.cookie && old(self).bus_listeners@.contains_key(c)
@@ -154,7 +148,7 @@ impl Broker {
             old(self).bl_inv(),
         ensures
             final(self).bl_inv(),
-            final(self).same_rest(old(self)),
+            final(self).bl_same_rest(old(self)),
             final(self).conns@ == old(self).conns@,
             final(self).bus_listeners@.dom() == old(self).bus_listeners@.dom(),
             forall|c: BusListenerCookie| c != req.cookie && old(self).bus_listeners@.contains_key(c)
@@ -171,7 +165,7 @@ impl Broker {
             old(self).bl_inv(),
         ensures
             final(self).bl_inv(),
-            final(self).same_rest(old(self)),
+            final(self).bl_same_rest(old(self)),
             final(self).conns@ == old(self).conns@,
             final(self).bus_listeners@.dom() == old(self).bus_listeners@.dom(),
             forall|c: BusListenerCookie| c != req.cookie && old(self).bus_listeners@.contains_key(c)
@@ -188,7 +182,7 @@ impl Broker {
             old(self).bl_inv(),
         ensures
             final(self).bl_inv(),
-            final(self).same_rest(old(self)),
+            final(self).bl_same_rest(old(self)),
             final(self).conns@ == old(self).conns@,
             final(self).bus_listeners@.dom() == old(self).bus_listeners@.dom(),
             forall|c: BusListenerCookie| c != req.cookie && old(self).bus_listeners@.contains_key(c)
